@@ -544,4 +544,218 @@ theorem pathOf_ok_of_join {ups cores downs : List Seg} {src dst : Nat} {es : Lis
     · exact hc.edgeOk
     · exact hd.choose_spec.2.2.edgeOk
 
+/-! `NoCollision` for well-formed segments -/
+
+
+/-- a segment as beaconing produces it: no AS twice, no zero IA, every peering interface announced
+once per AS entry -/
+def SegWF (s : Seg) : Prop :=
+  s.ents.Pairwise (fun a b => a.ia ≠ b.ia) ∧
+  ∀ e ∈ s.ents, e.ia ≠ 0 ∧
+    e.peers.Pairwise fun p q => ¬(p.hf.inIf = q.hf.inIf ∧ p.peer = q.peer ∧ p.peerIf = q.peerIf)
+
+theorem indexedFrom_pairwise_snd {α : Type} {R : α → α → Prop} {l : List α} (h : l.Pairwise R)
+    (n : Nat) : (indexedFrom n l).Pairwise fun a b => R a.2 b.2 := by
+  induction l generalizing n with
+  | nil => exact List.Pairwise.nil
+  | cons a as ih =>
+    rw [List.pairwise_cons] at h
+    simp only [indexedFrom]
+    refine List.pairwise_cons.2 ⟨?_, ih h.2 _⟩
+    intro x hx
+    obtain ⟨k, y⟩ := x
+    rw [mem_indexedFrom] at hx
+    exact h.1 y (List.mem_of_getElem? hx.2)
+
+theorem mem_indexedFrom_snd {α : Type} {l : List α} {n : Nat} {x : Nat × α}
+    (h : x ∈ indexedFrom n l) : x.2 ∈ l := by
+  obtain ⟨k, y⟩ := x
+  rw [mem_indexedFrom] at h
+  exact List.mem_of_getElem? h.2
+
+/-- the vertex of a tuple of entry `ent` mentions `ent.ia` -/
+def vertexHas (v : Vertex) (ia : Nat) : Prop := v.ia = ia ∨ v.upIA = ia ∨ v.downIA = ia
+
+theorem entryTuples_key {s : Seg} {kind : Kind} {i l k : Nat} {ent : ASE} {x : GEdge}
+    (hk : kind ≠ .core) (h : x ∈ entryTuples s kind i l (k, ent)) :
+    x.segIdx = i ∧ ((kind = .up ∧ x.src = vIA l ∧ (x.dst = vIA ent.ia ∨ (x.dst.ia = 0 ∧ x.dst.upIA = ent.ia))) ∨
+      (kind = .down ∧ x.dst = vIA l ∧ (x.src = vIA ent.ia ∨ (x.src.ia = 0 ∧ x.src.downIA = ent.ia)))) := by
+  obtain ⟨v, pe, hex, rfl⟩ := mem_entryTuples.1 h
+  cases kind with
+  | core => exact absurd rfl hk
+  | up =>
+    simp only [reduceCtorEq, if_false, true_and, false_and, or_false]
+    rcases hex with ⟨_, _, rfl⟩ | ⟨j, p, _, _, rfl⟩
+    · exact .inl rfl
+    · exact .inr ⟨rfl, rfl⟩
+  | down =>
+    simp only [if_true, true_and, reduceCtorEq, false_and, false_or]
+    rcases hex with ⟨_, _, rfl⟩ | ⟨j, p, _, _, rfl⟩
+    · exact .inl rfl
+    · exact .inr ⟨rfl, rfl⟩
+
+theorem sameKey_false_of_dst {a b : GEdge} (h : a.dst ≠ b.dst) : a.sameKey b = false := by
+  unfold GEdge.sameKey
+  simp [h]
+
+theorem sameKey_false_of_src {a b : GEdge} (h : a.src ≠ b.src) : a.sameKey b = false := by
+  unfold GEdge.sameKey
+  simp [h]
+
+theorem sameKey_false_of_idx {a b : GEdge} (h : a.segIdx ≠ b.segIdx) : a.sameKey b = false := by
+  unfold GEdge.sameKey
+  simp [h]
+
+/-- tuples of two entries with different IAs never collide -/
+theorem entryTuples_cross {s : Seg} {kind : Kind} {i l k k' : Nat} {e e' : ASE} {x y : GEdge}
+    (hk : kind ≠ .core) (hne : e.ia ≠ e'.ia) (h0 : e.ia ≠ 0) (h0' : e'.ia ≠ 0)
+    (hx : x ∈ entryTuples s kind i l (k, e)) (hy : y ∈ entryTuples s kind i l (k', e')) :
+    x.sameKey y = false := by
+  obtain ⟨_, hx⟩ := entryTuples_key hk hx
+  obtain ⟨_, hy⟩ := entryTuples_key hk hy
+  rcases hx with ⟨hu, _, hx⟩ | ⟨hd, _, hx⟩
+  · rcases hy with ⟨_, _, hy⟩ | ⟨hd, _, _⟩
+    · apply sameKey_false_of_dst
+      intro heq
+      rcases hx with hx | ⟨hx1, hx2⟩ <;> rcases hy with hy | ⟨hy1, hy2⟩
+      · rw [hx, hy] at heq; exact hne (vIA_inj heq)
+      · rw [hx] at heq; rw [← heq] at hy1; simp [vIA] at hy1; exact h0 hy1
+      · rw [hy] at heq; rw [heq] at hx1; simp [vIA] at hx1; exact h0' hx1
+      · rw [heq] at hx2; exact hne (hx2.symm.trans hy2)
+    · rw [hu] at hd; cases hd
+  · rcases hy with ⟨hu, _, _⟩ | ⟨_, _, hy⟩
+    · rw [hd] at hu; cases hu
+    · apply sameKey_false_of_src
+      intro heq
+      rcases hx with hx | ⟨hx1, hx2⟩ <;> rcases hy with hy | ⟨hy1, hy2⟩
+      · rw [hx, hy] at heq; exact hne (vIA_inj heq)
+      · rw [hx] at heq; rw [← heq] at hy1; simp [vIA] at hy1; exact h0 hy1
+      · rw [hy] at heq; rw [heq] at hx1; simp [vIA] at hx1; exact h0' hx1
+      · rw [heq] at hx2; exact hne (hx2.symm.trans hy2)
+
+
+theorem Vertex.reverse_reverse (v : Vertex) : v.reverse.reverse = v := by
+  cases v; rfl
+
+theorem entryTuples_pairwise {s : Seg} {kind : Kind} {i l k : Nat} {ent : ASE}
+    (hk : kind ≠ .core) (h0 : ent.ia ≠ 0)
+    (hp : ent.peers.Pairwise fun p q => ¬(p.hf.inIf = q.hf.inIf ∧ p.peer = q.peer ∧ p.peerIf = q.peerIf)) :
+    (entryTuples s kind i l (k, ent)).Pairwise fun a b => a.sameKey b = false := by
+  unfold entryTuples
+  dsimp only
+  rw [List.pairwise_map]
+  have hv : ((if k + 1 ≠ s.ents.length then [(vIA ent.ia, 0)] else []) ++
+      (indexedFrom 0 ent.peers).map fun (kp : Nat × PeerE) =>
+        (vPeering ent.ia kp.2.hf.inIf kp.2.peer kp.2.peerIf, kp.1 + 1)).Pairwise
+      (fun (a b : Vertex × Nat) => a.1 ≠ b.1) := by
+    rw [List.pairwise_append]
+    refine ⟨by split <;> simp, ?_, ?_⟩
+    · rw [List.pairwise_map]
+      refine (indexedFrom_pairwise_snd hp 0).imp ?_
+      intro a b hab heq
+      simp only [vPeering, Vertex.mk.injEq, true_and] at heq
+      exact hab heq
+    · intro a ha b hb
+      split at ha
+      · simp only [List.mem_singleton] at ha
+        subst ha
+        simp only [List.mem_map] at hb
+        obtain ⟨kp, _, rfl⟩ := hb
+        simp only [vIA, vPeering, ne_eq, Vertex.mk.injEq, not_and]
+        intro h; exact absurd h h0
+      · cases ha
+  refine hv.imp ?_
+  intro a b hab
+  cases kind with
+  | core => exact absurd rfl hk
+  | up =>
+    simp only [reduceCtorEq, if_false]
+    exact sameKey_false_of_dst hab
+  | down =>
+    simp only [if_true]
+    apply sameKey_false_of_src
+    intro heq
+    apply hab
+    have := congrArg Vertex.reverse heq
+    simpa [Vertex.reverse_reverse] using this
+
+theorem segTuples_idx {kind : Kind} {i : Nat} {s : Seg} {x : GEdge} (h : x ∈ segTuples kind (i, s)) :
+    x.segIdx = i := by
+  unfold segTuples at h
+  split at h
+  · split at h
+    · simp at h; subst h; rfl
+    · next hk =>
+      simp only [List.mem_flatMap, List.mem_reverse, Prod.exists] at h
+      obtain ⟨k, ent, _, hx⟩ := h
+      exact (entryTuples_key hk hx).1
+  · cases h
+
+theorem segTuples_pairwise {kind : Kind} {i : Nat} {s : Seg} (hw : SegWF s) :
+    (segTuples kind (i, s)).Pairwise fun a b => a.sameKey b = false := by
+  unfold segTuples
+  split
+  · split
+    · simp
+    · next l f _ _ hk =>
+      rw [List.pairwise_flatMap]
+      constructor
+      · intro a ha
+        obtain ⟨k, ent⟩ := a
+        have hm := mem_indexedFrom_snd (List.mem_reverse.1 ha)
+        exact entryTuples_pairwise hk (hw.2 ent hm).1 (hw.2 ent hm).2
+      · rw [List.pairwise_reverse]
+        refine (List.Pairwise.and_mem.1 (indexedFrom_pairwise_snd hw.1 0)).imp ?_
+        rintro ⟨k, e⟩ ⟨k', e'⟩ ⟨hm, hm', hne⟩ x hx y hy
+        have h1 := mem_indexedFrom_snd hm
+        have h2 := mem_indexedFrom_snd hm'
+        exact entryTuples_cross hk (Ne.symm hne) (hw.2 _ h2).1 (hw.2 _ h1).1 hx hy
+  · exact List.Pairwise.nil
+
+theorem flatMap_segTuples_pairwise {kind : Kind} (n : Nat) (l : List Seg)
+    (hw : ∀ s ∈ l, SegWF s) :
+    ((indexedFrom n l).flatMap (segTuples kind)).Pairwise fun a b => a.sameKey b = false := by
+  rw [List.pairwise_flatMap]
+  constructor
+  · rintro ⟨k, s⟩ hks
+    exact segTuples_pairwise (hw s (mem_indexedFrom_snd hks))
+  · refine (indexedFrom_pairwise l n).imp ?_
+    rintro ⟨k, s⟩ ⟨k', s'⟩ hlt x hx y hy
+    apply sameKey_false_of_idx
+    rw [segTuples_idx hx, segTuples_idx hy]
+    simp only at hlt; omega
+
+theorem flatMap_segTuples_idx {kind : Kind} {n : Nat} {l : List Seg} {x : GEdge}
+    (h : x ∈ (indexedFrom n l).flatMap (segTuples kind)) : n ≤ x.segIdx ∧ x.segIdx < n + l.length := by
+  simp only [List.mem_flatMap, Prod.exists] at h
+  obtain ⟨k, s, hks, hx⟩ := h
+  rw [mem_indexedFrom] at hks
+  rw [segTuples_idx hx]
+  refine ⟨hks.1, ?_⟩
+  have : k - n < l.length := by
+    rcases Nat.lt_or_ge (k - n) l.length with h | h
+    · exact h
+    · rw [List.getElem?_eq_none h] at hks; cases hks.2
+  omega
+
+/-- segments as beaconing produces them never make `AddEdge` overwrite an edge -/
+theorem noCollision_of_wf {ups cores downs : List Seg}
+    (hw : ∀ s ∈ ups ++ cores ++ downs, SegWF s) : NoCollision (allTuples ups cores downs) := by
+  unfold NoCollision allTuples
+  rw [List.pairwise_append, List.pairwise_append]
+  refine ⟨⟨flatMap_segTuples_pairwise _ _ (fun s hs => hw s (by simp [hs])),
+    flatMap_segTuples_pairwise _ _ (fun s hs => hw s (by simp [hs])), ?_⟩,
+    flatMap_segTuples_pairwise _ _ (fun s hs => hw s (by simp [hs])), ?_⟩
+  · intro a ha b hb
+    apply sameKey_false_of_idx
+    have := flatMap_segTuples_idx ha
+    have := flatMap_segTuples_idx hb
+    omega
+  · intro a ha b hb
+    apply sameKey_false_of_idx
+    have := flatMap_segTuples_idx hb
+    rcases List.mem_append.1 ha with ha | ha
+    · have := flatMap_segTuples_idx ha; omega
+    · have := flatMap_segTuples_idx ha; omega
+
 end Scion.Combinator
